@@ -391,6 +391,7 @@ class HydrodynamicsTemplateModel:
             self._dxiAndWdv, (v0, 1e-10), [vw, wp],
             events=event, rtol=self.rtol/10, atol=0, args=(shockWave,),
             t_eval=None if shockWave else np.linspace(v0, 1e-10, 1001),
+            dense_output=shockWave,
         )
         return sol
 
@@ -724,9 +725,10 @@ class HydrodynamicsTemplateModel:
         # If deflagration or hybrid, computes the shock wave contribution
         if vw < self.vJ:
             solShock = self.integratePlasma(boostVelocity(vw, vp), vw, wp)
-            vPlasma = solShock.t
-            xi = solShock.y[0]
-            enthalpy = solShock.y[1]
+            # Sample the solution densely up to the shock front before using
+            # Simpson's rule (the adaptive integrator returns only a few points)
+            vPlasma = np.linspace(solShock.t[0], solShock.t[-1], 1001)
+            xi, enthalpy = solShock.sol(vPlasma)
 
             # Integrate the solution to get kappa
             kappaSW = 4 * simpson(
